@@ -45,7 +45,7 @@ func betweenValues() []TV {
 	}
 }
 
-const c17Rule = "every value shape of the universe (all scalar kinds, typed slices incl. empty and typed-nil, []interface{} mixes with nil / nested / bool elements, arrays, maps, pointers, channels, funcs, structs, complex, untyped nil) x {common, number, string-hash, number-range} x {ParseValue, ParseAssign}; a zoo of numeric/decimal/malformed strings, extreme integers and floats; range descriptions (well formed, malformed, step<=0 under a 2 s / 600 MB guard in a child process); ParseIntergers/ParseIntegerNumber/NilInterface/ParseAcMatchDict/BuildAcMatchContent on all shapes; ParseRange for GT/LT/Between/unknown operator on all shapes and on between pairs of every typing; end-to-end: every accepted value indexed on a field using that parser/container and queried with the values it denotes. RangeIdx histories over configured domains [RangeMin,RangeMax) with ranges at the domain's edges; ParseRange also as a holder with EnableFloat2Int=false calls it (PCRangeNF); Non-trivial = the value is accepted (ids/values produced); distinct = distinct input"
+const c17Rule = "every value shape of the universe (all scalar kinds, typed slices incl. empty and typed-nil, []interface{} mixes with nil / nested / bool elements, arrays, maps, pointers, channels, funcs, structs, complex, untyped nil) x {common, number, string-hash, number-range} x {ParseValue, ParseAssign}; a zoo of numeric/decimal/malformed strings, extreme integers and floats; range descriptions (well formed, malformed, step<=0 under a 2 s / 600 MB guard in a child process); ParseIntergers/ParseIntegerNumber/NilInterface/ParseAcMatchDict/BuildAcMatchContent on all shapes; ParseRange for GT/LT/Between/unknown operator on all shapes and on between pairs of every typing; end-to-end: every accepted value indexed on a field using that parser/container and queried with the values it denotes. RangeIdx histories over configured domains [RangeMin,RangeMax) with ranges at the domain's edges; ParseRange also as a holder with EnableFloat2Int=false calls it (PCRangeNF); ParseIntergers also without float conversion (PCIntsNF); description lists with stepped descriptions before step-less ones; Non-trivial = the value is accepted (ids/values produced); distinct = distinct input"
 
 // denseAllocatorCases: the common parser with the library's dense id allocator (set through the exported field): the
 // first text a parser ever sees gets id 0 -- accepted at indexing time, it must be matched at query time in every
@@ -79,14 +79,14 @@ func init() {
 			shapes = append(shapes, tvSlice("[]string", tvStr("1:3"), tvStr("7:9:2")), tvSlice("[]string", tvStr("1:3"), tvStr("x")),
 				tvList(tvStr("1:3"), tvStr("5:6")), tvList(tvStr("1:3"), tvInt("int", 5)),
 				// lists of descriptions in every relative position: later below, later wider, overlapping, stepped, repeated
-				tvSlice("[]string", tvStr("10:12"), tvStr("1:3")), tvSlice("[]string", tvStr("5:9"), tvStr("1:20")), tvSlice("[]string", tvStr("0:10:5"), tvStr("1:9:2")),
+				tvSlice("[]string", tvStr("10:12"), tvStr("1:3")), tvSlice("[]string", tvStr("10:30:10"), tvStr("40:45")), tvList(tvStr("0:9:3"), tvStr("20:22"), tvStr("30:40:5"), tvStr("50:52")), tvSlice("[]string", tvStr("5:9"), tvStr("1:20")), tvSlice("[]string", tvStr("0:10:5"), tvStr("1:9:2")),
 				tvList(tvStr("10:12"), tvStr("1:3"), tvStr("11:13")), tvList(tvStr("1:5"), tvStr("3:8"), tvStr("1:5")), tvSlice("[]string", tvStr("7:7"), tvStr("7:7"), tvStr("2:2")))
 			for _, v := range shapes {
 				for _, p := range []string{"", "number", "strhash", "numrange"} {
 					add(pIn{K: "parse", Parser: p, Assign: false, V: v})
 					add(pIn{K: "parse", Parser: p, Assign: true, V: v})
 				}
-				for _, k := range []string{"ints", "number", "nil", "acdict", "actext"} {
+				for _, k := range []string{"ints", "intsnf", "number", "nil", "acdict", "actext"} {
 					add(pIn{K: k, V: v})
 				}
 				for _, op := range []int{1, 2, 3, 7} {
